@@ -4,7 +4,7 @@
      small d    payload shorter than 2^31 bytes    ps_ok ps    per-sector progress is 0 or >= 16 (header atomic)
      old_ok F   the old file is absent/empty or has at least the 16 header bytes
      0 < now    the clock at load time is positive *)
-From CppcmsV Require Import Base.Tac Base.Sweep C18.Defs C18.Proofs C18.Crash C18.History C18.Sid C18.Full C18.Link C18.Burst C18.AnyOld C18.Planted C18.Clock C18.ShortWrite C18.ShortRead C18.Transparent C18.LinkSid C18.Examples gen.Gen_crc gen.Gen_C18_sid.
+From CppcmsV Require Import Base.Tac Base.Sweep C18.Defs C18.Proofs C18.Crash C18.History C18.Sid C18.Full C18.Link C18.Burst C18.AnyOld C18.Planted C18.Clock C18.ShortWrite C18.ShortRead C18.Transparent C18.CrcCalc C18.LinkSid C18.Examples gen.Gen_crc gen.Gen_C18_sid.
 Local Open Scope N_scope.
 
 (* ---- 1. crash safety: every crash state of every save over every old file ----
@@ -116,6 +116,42 @@ Example C18_burst_nonvacuous :
   w_new = [98] ++ [72; 69; 76; 76; 79] ++ [] /\ w_mix = [98] ++ [9; 67; 61; 151; 78] ++ [] /\ crc32 w_new = crc32 w_mix /\
   crc32 ([1] ++ [2; 3; 4; 5] ++ [6]) <> crc32 ([1] ++ [2; 3; 4; 6] ++ [6]).
 Proof. exact ex_C18_burst_nonvacuous. Qed.
+
+(* ---- 2c. the checksum: the class crc32_calc (value_ = 0; process_bytes; checksum), fed in ANY number of pieces of ANY sizes,
+   computes the CRC-32 of the WHOLE input; the CRC-32 depends on every single byte wherever it lies (no block boundary beyond which
+   bytes are ignored); the header a save writes carries the CRC of the whole value and what the loader compares with the header
+   field is the CRC of the whole data area, for every length ---- *)
+Theorem C18_crc32_calc_whole : forall chunks, crc32_calc chunks = crc32 (concat chunks).
+Proof. exact crc32_calc_whole. Qed.
+Print Assumptions C18_crc32_calc_whole.
+
+Theorem C18_crc32_every_byte : forall pre a b suf,
+  bytes_ok pre -> a < 256 -> b < 256 -> bytes_ok suf ->
+  crc32 (pre ++ [a] ++ suf) = crc32 (pre ++ [b] ++ suf) -> a = b.
+Proof. exact crc32_every_byte. Qed.
+Print Assumptions C18_crc32_every_byte.
+
+Theorem C18_header_crc_whole : forall t d chunks, bytes_ok d -> concat chunks = d -> hdr_crc (header t d) = crc32_calc chunks.
+Proof. exact header_crc_whole. Qed.
+Print Assumptions C18_header_crc_whole.
+
+Theorem C18_loader_crc_whole_area : forall now f t' d', read_from_file now f = Some (t', d') -> hdr_size f < 2 ^ 31 ->
+  d' = firstn (N.to_nat (hdr_size f)) (skipn 16 f) /\ length d' = N.to_nat (hdr_size f) /\
+  hdr_crc f = crc32_calc [firstn (N.to_nat (hdr_size f)) (skipn 16 f)].
+Proof. exact loader_crc_whole_area. Qed.
+Print Assumptions C18_loader_crc_whole_area.
+
+Theorem C18_loader_accepts_iff : forall now f,
+  (16 <= length f)%nat -> (now <= hdr_deadline f)%Z -> size_fits f = true -> hdr_size f < 2 ^ 31 ->
+  let area := firstn (N.to_nat (hdr_size f)) (skipn 16 f) in
+  read_from_file now f = if crc32_calc [area] =? hdr_crc f then Some (hdr_deadline f, area) else None.
+Proof. exact loader_accepts_iff. Qed.
+Print Assumptions C18_loader_accepts_iff.
+
+Example C18_crc_calc_nonvacuous :
+  crc32_calc [[49; 50; 51]; []; [52; 53; 54; 55]; [56; 57]] = 3421780262 /\ crc32_calc [] = 0 /\
+  crc32 ([1; 2] ++ [3] ++ [4]) <> crc32 ([1; 2] ++ [5] ++ [4]).
+Proof. exact crc_calc_nonvacuous. Qed.
 
 (* ---- 3. what load returns has the length of the header and fits into the file (for every value of the size field: the
    size field is compared with the file length before anything is allocated or read); below 2 GiB it is cut from the file ---- *)
